@@ -1108,7 +1108,7 @@ func TestC01(t *testing.T) {
 		}
 		return
 	}
-	cfg := LoadCfg(t, 16, 200)
+	cfg := LoadCfg(t, 32, 300)
 	em := NewEmitter(t, cfg.Out)
 	defer em.Close()
 	w := newWorld()
